@@ -11,7 +11,10 @@ TEXTS = {
              "processed message is presented exactly once to each machine it is addressed to and to no other (C14_exactly_once, "
              "C14_at_most_once_only_named), the processed messages are the submitted one followed by every emission, each once, breadth "
              "first, batches in emission order (C14_feedback), and Result.Emitted holds every emission exactly once in non-empty batches "
-             "that are the recipients' reactions (C14_reported_once). On every run the same definitions are evaluated against the Go "
+             "that are the recipients' reactions (C14_reported_once). The model's hand-written predicates for what the two service machines "
+             "accept in node start equal the branch patterns read from sio/timersspec.go and sio/captainspec.go on every check, under the "
+             "matcher model, for every bindings map that binds none of the patterns' variables (C14_sio_timers_shape_is_source_patterns, "
+             "C14_sio_timers_start_never_errs, C14_sio_captain_start_accepts_all, C14_sio_service_start_nodes_take_messages). On every run the same definitions are evaluated against the Go "
              "crew on generated histories, and the counting oracle is evaluated on what Go returned (logs kept by recorder machines, "
              "Result.Emitted, probes for captain and timers).",
         note=SIO_NOTE + " This check covers the sio host; the mcrew host is a separate run of C14. Partial: a message naming the "
